@@ -1,6 +1,6 @@
 """C14: posterior summaries are exact functionals of the retained trace.
 
-spec  : spec/TraceSummary/{TraceSummary,TraceTraceSummary}.tla
+spec  : spec/TraceSummary/{TraceSummary,TraceTraceSummary,TraceWideSummary}.tla
 bind  : spec -> code: every "done" state of TraceSummary (complete stored trace x burn-in x relabelling,
         with the model's summary) -> GenotypeMultiTrace / GenotypeAllelesMultiTrace /
         PedigreeAllelesMultiTrace objects, every summary method and mset.unique_counts/count/categorize,
@@ -8,6 +8,11 @@ bind  : spec -> code: every "done" state of TraceSummary (complete stored trace 
         code -> spec: real assemble / call / call-pedigree runs (in-process, repo test data) with the
         trace returned by fit() captured; the fields printed in the VCF record (GT GPM SPM AFP ACP AOP GP MCI)
         are validated against the captured trace by TraceTraceSummary.tla.
+        Three and four chains (some qualifying, some not; nested and foreign supports): MC_chains*.cfg
+        (TraceSummary!BelowThresholdChainsIgnored), replayed like every other state.
+        Loci with 40-600 haplotypes, traces in the dtypes the programs hold (int8 / int16 / int32), retained
+        genotypes whose VCF indices exceed / collide modulo the dtype's range: impl/c14_wide.py records the
+        summaries of the real classes, TraceWideSummary.tla recomputes every one of them from the trace.
 """
 import json
 import os
@@ -40,14 +45,20 @@ def group(grouped, kind, key, detail):
         g["examples"].append(detail)
 
 
-def replay(ck, states, grouped, feats, behaviours, tier, py_every=None, wide_every=7):
+def replay(ck, states, grouped, feats, behaviours, tier, py_every=None, wide_every=7, more=()):
     """spec -> code: every done state into the real classes, compiled; interpreted (NUMBA_DISABLE_JIT) as well for
-    every second state (quick) / every third state (thorough)"""
+    every second state (quick) / every third state (thorough).  `more`: further (states, py_every, wide_every) groups
+    replayed by the same worker pools (one pool start per mode)"""
     chunk = 250
+    groups = [(states, py_every or (2 if tier == "quick" else 3), wide_every)] + list(more)
     for mode in ("jit", "py"):
-        sel = states if mode == "jit" else states[::(py_every or (2 if tier == "quick" else 3))]
-        chunks = [sel[i: i + chunk] for i in range(0, len(sel), chunk)]
-        res = pool.map_tasks("impl.c14", [{"op": "states", "states": c, "mode": mode, "wide_every": wide_every if mode == "jit" else 0} for c in chunks], mode=mode)
+        chunks, tasks = [], []
+        for sts, pe, we in groups:
+            sel = sts if mode == "jit" else sts[::pe]
+            for i in range(0, len(sel), chunk):
+                chunks.append(sel[i: i + chunk])
+                tasks.append({"op": "states", "states": chunks[-1], "mode": mode, "wide_every": we if mode == "jit" else 0})
+        res = pool.map_tasks("impl.c14", tasks, mode=mode)
         for c, rr in zip(chunks, res):
             if not rr["ok"]:
                 ck.violation("impl-error", {"mode": mode, "error": rr["error"], "tb": rr.get("tb", "")[-800:]},
@@ -66,8 +77,9 @@ def replay(ck, states, grouped, feats, behaviours, tier, py_every=None, wide_eve
                 group(grouped, "summary-mismatch", violation_key(bd), {"mode": mode, **bd})
             if o.get("bad_overflow"):
                 ck.bump("mismatches_not_listed", o["bad_overflow"])
-    for s in states:
-        behaviours.add((s["kind"], tuple(s["ps"]), s["k"], s["c"], s["s"]))
+    for sts, _, _ in groups:
+        for s in sts:
+            behaviours.add((s["kind"], tuple(s["ps"]), s["k"], s["c"], s["s"]))
 
 
 def replay_file(ck, path):
@@ -80,6 +92,8 @@ def replay_file(ck, path):
     events = [e["event"] for e in ex if "event" in e]
     if "event" in rec["detail"]:
         events.append(rec["detail"]["event"])
+    wide = [e for e in events if str(e.get("program", "")).startswith("wide:")]
+    events = [e for e in events if e not in wide]
     grouped = {}
     if states:
         replay(ck, states, grouped, {}, set(), "quick")
@@ -87,7 +101,14 @@ def replay_file(ck, path):
         ck.violation(kind, {"n_cases": g["n"], "examples": g["examples"]}, key=g["key"])
     if events:
         validate_events(ck, events, "replay-trace.json")
-    ck.note("replayed_cases", len(states) + len(events))
+    if wide:
+        # the recorded wide traces are run through the real classes again (same dtype / class), then validated
+        res = pool.map_tasks("impl.c14_wide", [{"op": "rerun", "events": wide}], mode="jit")
+        if not res[0]["ok"]:
+            ck.violation("impl-error", {"error": res[0]["error"], "tb": res[0].get("tb", "")[-1500:]}, key={"site": "wide-trace"})
+        else:
+            validate_wide(ck, res[0]["result"], "replay-trace-wide.json")
+    ck.note("replayed_cases", len(states) + len(events) + len(wide))
     ck.sample({"kind": "replayed", "file": path})
     ck.finish()
 
@@ -99,7 +120,9 @@ def main():
         "TLC enumerates every stored trace of each (kind, ploidies, alleles, chains, steps) instance "
         "(haplotype traces: every within-genotype storage order), every burn-in 0..S-1 and every increasing "
         "relabelling, computes the summary from the empirical distribution over bags and checks the invariants; "
-        "every such state is replayed into the real classes. Non-trivial = the retained trace holds more than one "
+        "every such state is replayed into the real classes. Three / four chains: steps drawn from menus of genotypes with "
+        "nested and foreign supports. Wide loci (40-600 haplotypes, int8/int16/int32 traces): recorded summaries "
+        "recomputed by TLC from the recorded trace. Non-trivial = the retained trace holds more than one "
         "distinct genotype (other features are counted separately in `state_features`)."
     )
     if os.environ.get("VERIF_REPLAY"):
@@ -109,6 +132,21 @@ def main():
             os.remove(os.path.join(ck.wd, fn))
     phase = {}
     t0 = time.time()
+    # the chain grid is model-checked in the background while the mutants and the main grid run (quick tier)
+    chains_box = {}
+    if tier == "quick":
+        import threading
+
+        def chains_tlc():
+            t1 = time.time()
+            try:
+                chains_box["r"] = tlc.run(SPEC, "TraceSummary", "MC_chains.cfg", timeout=2400, workers=max(2, env.NCPU // 2))
+            except Exception as e:
+                chains_box["exc"] = e
+            chains_box["wall"] = round(time.time() - t1, 1)
+
+        chains_box["thread"] = threading.Thread(target=chains_tlc)
+        chains_box["thread"].start()
     # ---- 1. mutant specifications (binding demonstration) --------------------------------
     try:
         killed = 0
@@ -127,18 +165,12 @@ def main():
     phase["mutant_specs"] = round(time.time() - t0, 1)
     # ---- 2. model checking + spec -> code, one part of the grid after the other -----------
     # MC_chains*: three and four chains over menus of genotypes with nested and foreign supports
-    parts = ["MC_quick.cfg", "MC_chains.cfg"] if tier == "quick" else [
+    parts = ["MC_quick.cfg"] if tier == "quick" else [
         "MC_thorough.cfg", "MC_thorough_b.cfg", "MC_thorough_c.cfg", "MC_thorough_d.cfg", "MC_chains_thorough.cfg"]
     grouped, feats, behaviours = {}, {}, set()
     n_states = 0
-    for cfg in parts:
-        t1 = time.time()
-        try:
-            r = tlc.run(SPEC, "TraceSummary", cfg, timeout=2400)
-        except tlc.TLCError as e:
-            ck.machinery_failure(str(e))
-        phase["tlc:" + cfg] = round(time.time() - t1, 1)
-        t1 = time.time()
+
+    def states_of(r, cfg):
         ck.add_tlc(r, "TraceSummary:" + cfg)
         if r.violated:
             ck.violation("model", {"cfg": cfg, "invariant": r.violated, "text": r.error_text[:1500]},
@@ -150,12 +182,34 @@ def main():
             if k not in seen:
                 seen.add(k)
                 states.append(s)
-        del r
         if not states:
             ck.machinery_failure("TLC printed no states for %s" % cfg)
+        return states
+
+    for cfg in parts:
+        t1 = time.time()
+        try:
+            r = tlc.run(SPEC, "TraceSummary", cfg, timeout=2400)
+        except tlc.TLCError as e:
+            ck.machinery_failure(str(e))
+        phase["tlc:" + cfg] = round(time.time() - t1, 1)
+        t1 = time.time()
+        states = states_of(r, cfg)
+        del r
         n_states += len(states)
         if cfg.startswith("MC_chains"):
             replay(ck, states, grouped, feats, behaviours, tier, py_every=5, wide_every=31)
+        elif tier == "quick":
+            chains_box["thread"].join()
+            if "exc" in chains_box:
+                ck.machinery_failure(str(chains_box["exc"]))
+            phase["tlc:MC_chains.cfg(background)"] = chains_box["wall"]
+            cstates = states_of(chains_box.pop("r"), "MC_chains.cfg")
+            n_states += len(cstates)
+            t1 = time.time()
+            replay(ck, states, grouped, feats, behaviours, tier, more=[(cstates, 5, 31)])
+            ck.sample({"kind": "model-state", "state": cstates[len(cstates) // 3]})
+            del cstates
         else:
             replay(ck, states, grouped, feats, behaviours, tier)
         phase["replay:" + cfg] = round(time.time() - t1, 1)
@@ -251,7 +305,16 @@ def wide_part(ck, box):
         if ck.violations:
             return
         ck.machinery_failure("no wide trace events recorded")
-    tf = os.path.join(ck.wd, "trace-wide.json")
+    validate_wide(ck, events, "trace-wide.json")
+    ck.traces += len(events)
+    ck.evaluations += len(events)
+    ck.nontrivial += sum(1 for e in events if e["distinct"] > 1)
+    wide_rest(ck, events)
+
+
+def validate_wide(ck, events, fname):
+    """code -> spec: TLC (TraceWideSummary) recomputes every recorded summary from the recorded trace"""
+    tf = os.path.join(ck.wd, fname)
     with open(tf, "w") as fh:
         json.dump(events, fh)
     try:
@@ -262,14 +325,20 @@ def wide_part(ck, box):
     consumed = [p for p in t.printed if "consumed" in p]
     if not consumed or consumed[0]["consumed"] != len(events):
         ck.machinery_failure("wide trace not fully consumed: %s of %d" % (consumed, len(events)))
+    rejected = {}
     for p in t.printed:
         if "reject" in p:
             e = events[p["reject"] - 1]
-            ck.violation("trace-reject", {"line": p["reject"], "clause": p["clause"], "event": e},
-                         key={"site": e["program"], "clause": p["clause"]})
-    ck.traces += len(events)
-    ck.evaluations += len(events)
-    ck.nontrivial += sum(1 for e in events if e["distinct"] > 1)
+            g = rejected.setdefault((e["program"], p["clause"]), {"n": 0, "examples": []})
+            g["n"] += 1
+            if len(g["examples"]) < 2:
+                g["examples"].append({"line": p["reject"], "clause": p["clause"], "event": e})
+    for (site, clause), g in sorted(rejected.items()):      # one violation per (dtype / class, clause)
+        ck.violation("trace-reject", {"n_cases": g["n"], "clause": clause, "examples": g["examples"]},
+                     key={"site": site, "clause": clause})
+
+
+def wide_rest(ck, events):
     stat = {}
     for e in events:
         d = stat.setdefault(e["program"], {"events": 0, "with_colliding_indices": 0, "index_beyond_dtype": 0, "g_array": 0,
@@ -282,7 +351,7 @@ def wide_part(ck, box):
         d["max_alleles"] = max(d["max_alleles"], e["k"])
     ck.note("wide_trace_events", stat)
     for prog in ("wide:int16:pedigree", "wide:int32:calling", "wide:int8:calling"):
-        if stat.get(prog, {}).get("with_colliding_indices", 0) == 0:
+        if stat.get(prog, {}).get("with_colliding_indices", 0) == 0 and not ck.violations:
             ck.machinery_failure("wide traces: regime not reached for %s: %s" % (prog, stat.get(prog)))
     ck.sample({"kind": "recorded-wide-event", "event": {k: v for k, v in events[0].items() if k != "tr"}})
     # binding demonstration: two retained genotypes merged into one / a probability placed 2^16 cells away
